@@ -565,7 +565,7 @@ func TestRepoFactsAllTrue(t *testing.T) {
 	}
 }
 
-var sourceFiles = []string{"pkg/ipam/floatingip/store_crd.go", dir + "util/utils.go", "pkg/api/galaxy/constant/constant.go", dir + "event.go", dir + "bind.go", dir + "resync.go",
+var sourceFiles = []string{"pkg/ipam/server/server.go", "pkg/ipam/floatingip/store_crd.go", dir + "util/utils.go", "pkg/api/galaxy/constant/constant.go", dir + "event.go", dir + "bind.go", dir + "resync.go",
 	dir + "filter.go", dir + "floatingip_plugin.go", dir + "preempt.go", "pkg/ipam/floatingip/ipam_crd.go"}
 
 // patched copies the files the translator reads out of /repo and applies a patch from testdata ("" = none).
@@ -623,13 +623,16 @@ func TestHarmlessRewritesKeepFacts(t *testing.T) {
 // ... and the seeded changes still flip theirs
 func TestSeededChangesFlipFacts(t *testing.T) {
 	for p, fact := range map[string]string{
-		"seeded-C04-3.diff": "bindEnqueuesReleaseOnlyOnNotFound",
-		"seeded-C01-3.diff": "finishedChecksPhaseOnly",
-		"seeded-C04-4.diff": "configurePoolMatchesSubnetAndRanges",
-		"seeded-C04-5.diff": "bindEnqueuesReleaseOnlyOnNotFound",
-		"seeded-C01-5.diff": "unbindChecksUID",
-		"seeded-C01-7.diff": "reloadListsApiserver",
-		"seeded-C08-7.diff": "bindReplyInRequestOrder",
+		"seeded-C04-3.diff":  "bindEnqueuesReleaseOnlyOnNotFound",
+		"seeded-C01-3.diff":  "finishedChecksPhaseOnly",
+		"seeded-C04-4.diff":  "configurePoolMatchesSubnetAndRanges",
+		"seeded-C04-5.diff":  "bindEnqueuesReleaseOnlyOnNotFound",
+		"seeded-C01-5.diff":  "unbindChecksUID",
+		"seeded-C01-7.diff":  "reloadListsApiserver",
+		"seeded-C08-7.diff":  "bindReplyInRequestOrder",
+		"seeded-C01-11.diff": "initRunsAfterLeadershipAcquired",
+		"seeded-C05-11.diff": "informersStartAfterPluginConstructed",
+		"seeded-C03-11.diff": "finishedChecksPhaseOnly",
 	} {
 		dir := patched(t, p)
 		if dir == "" {
